@@ -301,6 +301,20 @@ namespace foonathan
             bool equal_to(std::false_type,
                           const std_allocator<U, RawAllocator>& other) const noexcept
             {
+                return equal_to_any(std::is_same<RawAllocator, any_allocator>{}, other);
+            }
+
+            template <typename U> // type-erased: ask the stored references
+            bool equal_to_any(std::true_type,
+                              const std_allocator<U, RawAllocator>& other) const noexcept
+            {
+                return get_allocator().refers_to_same(other.get_allocator());
+            }
+
+            template <typename U>
+            bool equal_to_any(std::false_type,
+                              const std_allocator<U, RawAllocator>& other) const noexcept
+            {
                 return equal_to_impl(typename allocator_traits<RawAllocator>::is_stateful{}, other);
             }
 
